@@ -13,6 +13,26 @@ def gates_of(qc):
     return out
 
 
+SYMMETRIC_GATES = ("cz", "swap")
+
+
+def circuit_key(gates):
+    """the circuit as a DAG: for every qubit the sequence of gates touching it (operands of the symmetric gates cz / swap unordered; barriers ignored).  Two gate
+    lists with the same key are the same circuit - listing order of gates on disjoint qubits and the operand order of a symmetric gate carry no meaning."""
+    per = {}
+    for nm, qs in gates:
+        if nm == "barrier":
+            continue
+        g = (nm, tuple(sorted(qs)) if nm in SYMMETRIC_GATES else tuple(qs))
+        for q in qs:
+            per.setdefault(q, []).append(g)
+    return {q: tuple(v) for q, v in per.items()}
+
+
+def same_text(a, b):
+    return " ".join(str(a).split()) == " ".join(str(b).split())
+
+
 def gens_of_stabilizer(st):
     """Oracle generators (x, z, s) of a repository Stabilizer: generator j = column j of R / S."""
     n = st.num_qubits
